@@ -1,0 +1,13 @@
+//go:build verif
+
+// Contracts for the VC generator in /verif (comment-only).
+
+package alt
+
+// ---------------------------------------------------------------------------
+// Diff, Compare and Match are total (C19, safety part): thin safety contracts over the difference recursion and its
+// helpers — every implicit runtime-fault obligation on every path, for arbitrary values on both sides.
+
+//@ unit altdiff
+
+//@ sweep [C19] ^(diff|Match|Diff|Compare|asInt|asFloat|ignoreIndex|ignoreKey)$
